@@ -689,8 +689,85 @@ class Flattener(object):
             out.append(s)
         return out
 
+    # ---- desugaring (exact rewritings into plain statements, so that rules see branches and loops) ----------------
+    def desugar(self, stmts):
+        out = []
+        for s in stmts:
+            for field in ('body', 'orelse', 'finalbody'):
+                blk = getattr(s, field, None)
+                if isinstance(blk, list) and blk and isinstance(blk[0], ast.stmt):
+                    setattr(s, field, self.desugar(blk))
+            if isinstance(s, ast.Try):
+                for h in s.handlers:
+                    h.body = self.desugar(h.body)
+            out.extend(self.desugar_stmt(s))
+        return out
+
+    def _single_def(self, name):
+        defs = [n for n in ast.walk(self._node) if isinstance(n, ast.Assign) and len(n.targets) == 1 and
+                isinstance(n.targets[0], ast.Name) and n.targets[0].id == name]
+        uses = [n for n in ast.walk(self._node) if isinstance(n, ast.Name) and n.id == name and isinstance(n.ctx, ast.Load)]
+        return defs[0] if len(defs) == 1 and len(uses) == 1 else None
+
+    def desugar_stmt(self, s):
+        # value <- c ? a : b        (return / assignment to one name)
+        def split(value, make):
+            if isinstance(value, ast.IfExp):
+                self.desugared += 1
+                return [ast.copy_location(ast.If(test=value.test, body=split(value.body, make), orelse=split(value.orelse, make)), s)]
+            if isinstance(value, ast.BoolOp) and isinstance(value.op, ast.Or) and len(value.values) == 2 and \
+                    isinstance(value.values[0], ast.Name):
+                # a or b   ==   a if a else b      (a is a plain name: no double evaluation)
+                self.desugared += 1
+                a, b = value.values
+                return [ast.copy_location(ast.If(test=clone(a), body=make(a), orelse=split(b, make)), s)]
+            return make(value)
+        if isinstance(s, ast.Return) and isinstance(s.value, (ast.IfExp, ast.BoolOp)):
+            return split(s.value, lambda v: [ast.copy_location(ast.Return(value=v), s)])
+        if isinstance(s, ast.Assign) and len(s.targets) == 1 and isinstance(s.targets[0], ast.Name) and \
+                isinstance(s.value, ast.IfExp):
+            tgt = s.targets[0]
+            return split(s.value, lambda v: [ast.copy_location(ast.Assign(targets=[clone(tgt)], value=v), s)])
+        # x = next((e for t in it if c), default)   ==>   x = default; for t in it: if c: x = e; break
+        if isinstance(s, ast.Assign) and len(s.targets) == 1 and isinstance(s.targets[0], ast.Name) and \
+                isinstance(s.value, ast.Call) and isinstance(s.value.func, ast.Name) and s.value.func.id == 'next' and \
+                len(s.value.args) == 2 and not s.value.keywords:
+            gen = s.value.args[0]
+            drop = None
+            if isinstance(gen, ast.Name):
+                d = self._single_def(gen.id)
+                if d is not None and isinstance(d.value, ast.GeneratorExp):
+                    gen, drop = d.value, d
+            if isinstance(gen, ast.GeneratorExp) and len(gen.generators) == 1:
+                g0 = gen.generators[0]
+                tgt = s.targets[0]
+                body = [ast.copy_location(ast.Assign(targets=[clone(tgt)], value=gen.elt), s), ast.copy_location(ast.Break(), s)]
+                for cond in reversed(g0.ifs):
+                    body = [ast.copy_location(ast.If(test=cond, body=body, orelse=[]), s)]
+                loop = ast.For(target=g0.target, iter=g0.iter, body=body, orelse=[], type_comment=None)
+                init = ast.Assign(targets=[clone(tgt)], value=s.value.args[1])
+                self.desugared += 1
+                if drop is not None:
+                    self._dropped.add(id(drop))
+                return [ast.copy_location(init, s), ast.copy_location(loop, s)]
+        return [s]
+
     def run(self):
         node = clone(self.fi.node)
+        self._node = node
+        self.desugared = 0
+        self._dropped = set()
+        node.body = self.desugar(node.body)
+        if self._dropped:
+            class Drop(ast.NodeTransformer):
+                def __init__(self, ids):
+                    self.ids = ids
+
+                def visit_Assign(self, n):
+                    return None if id(n) in self.ids else n
+            node = Drop(self._dropped).visit(node)
+        if self.desugared:
+            self.inlined.append(self.fi.key + '::<desugared>')
         if self.local_defs:
             # the nested definitions themselves stay in place (harmless), their clones are resolved by name
             pass
